@@ -125,7 +125,7 @@ RUN_INV = {
     "C02": ["C02_SumIdentity", "C02_RenderedTable", "C02_RenderedSummary"],
     "C15": ["C15_Symmetric", "C15_StarIffPartner", "C15_FileStars"],
     "C16": ["C16_Desolvation", "C16_Buried", "C16_Backbone", "C16_CoulombSign", "C16_CoulombBound",
-            "C16_SidechainBound", "C16_AcidBasePair"],
+            "C16_SidechainBound", "C16_AcidBasePair", "C16_CoulombSource"],
 }
 
 
